@@ -15,6 +15,9 @@ pub fn repo() -> PathBuf {
     PathBuf::from(std::env::var("VERIF_REPO").unwrap_or_else(|_| "/repo".to_string()))
 }
 
+/// set by `vcheck <ID> --replay <file>`
+pub static REPLAY_MODE: std::sync::atomic::AtomicBool = std::sync::atomic::AtomicBool::new(false);
+
 pub fn hash64(s: &str) -> u64 {
     crate::dice::tag(s)
 }
@@ -142,7 +145,9 @@ impl Evidence {
         });
         let dir = root().join("evidence");
         std::fs::create_dir_all(&dir).unwrap();
-        std::fs::write(dir.join(format!("{}.json", self.id)), serde_json::to_string_pretty(&doc).unwrap()).unwrap();
+        // re-evaluating one saved reproduction must not replace the record of the last full run
+        let name = if REPLAY_MODE.load(std::sync::atomic::Ordering::Relaxed) { format!("{}.replay.json", self.id) } else { format!("{}.json", self.id) };
+        std::fs::write(dir.join(name), serde_json::to_string_pretty(&doc).unwrap()).unwrap();
     }
 }
 
